@@ -8,6 +8,8 @@ import copy
 
 from hedmon.oracle import schema_xml, units as units_oracle
 
+# characters no HED string may contain: controls, and the non-printing separators and format characters beyond ASCII
+NONPRINTING = "\x01\x07\x1f\x7f\x85\xa0\xad\u2009\u200b\u2028\u2029\u3000\ufeff"
 NUMERALS = ["3", "0.5", "12.", "1e3", "-7", "+4", ".5", "2.5E-2", "10", "42", "6.25"]
 WORDS = ["alpha", "Beta7", "gamma-2", "delta_x", "Epsilon", "zeta9", "Eta", "theta-q", "Iota", "kappa_1", "Lambda", "mu22"]
 EXT_WORDS = ["Zzqext", "Qqmore", "Xxnew-1", "Yy_term", "Wwext9", "Vvthing"]
@@ -107,6 +109,8 @@ class AnnotGen:
         if vc == "nameClass":
             return rng.choice(WORDS)
         if vc == "textClass":
+            if rng.random() < 0.15:
+                return "/".join(rng.sample(WORDS, 2))      # free text may hold a slash: the value is all that follows the tag
             return " ".join(rng.sample(WORDS, rng.randrange(1, 4)))
         return rng.choice(WORDS).replace("_", "-")
 
@@ -365,6 +369,7 @@ def mutate(gen, items, kind, rng):
     o = gen.o
     raw = lambda s, role="raw": {"t": "tag", "name": s, "suffix": "", "node": None, "role": role, "raw": s}   # noqa
     text = None
+    sub = None                                     # which variant of the fault was written, for coverage counts
     if kind == "unknown-tag":
         w = rng.choice(["Zzunknownword", "Qqnotatag", "Xyzzy-9"])
         if w.casefold() in gen.vocab:
@@ -402,10 +407,22 @@ def mutate(gen, items, kind, rng):
             return None
         n = rng.choice(cands)
         t = gen.table(n)
-        bad = rng.choice(["foo", "xyzunits", "Zz", "qqs"])
-        if t.accepted(bad):
-            return None
-        _insert_raw(items, rng, raw(f"{gen.spell(n)}/{rng.choice(NUMERALS)} {bad}"))
+        r = rng.random()
+        wc = t.wrong_case()
+        sfx = t.suffix_spellings()
+        if r < 0.35 and wc:
+            bad = rng.choice(wc)                   # a symbol, with or without an SI prefix, in another letter case
+            val = f"{rng.choice(NUMERALS)} {bad}"
+            sub = "wrong-case"
+        elif r < 0.5 and sfx:
+            val = f"{rng.choice(sfx)} {rng.choice(NUMERALS)}"      # an ordinary unit written before the number
+            sub = "unit-first"
+        else:
+            bad = rng.choice(["foo", "xyzunits", "Zz", "qqs"])
+            if t.accepted(bad):
+                return None
+            val = f"{rng.choice(NUMERALS)} {bad}"
+        _insert_raw(items, rng, raw(f"{gen.spell(n)}/{val}"))
         code = "UNITS_INVALID"
     elif kind == "bad-value":
         cands = [n for n in gen.values if o.value_classes_of(n) == ["numericClass"]]
@@ -535,9 +552,19 @@ def mutate(gen, items, kind, rng):
             if not tags:
                 return None
             t = rng.choice(tags)
-            ch = {"bracket-char": rng.choice("[]"), "control-char": rng.choice("\x01\x07\x1f\x7f"), "tilde": "~"}[kind]
-            k = rng.randrange(1, len(t["name"]) - 1)
-            t["raw"] = t["name"][:k] + ch + t["name"][k:]
+            ch = {"bracket-char": rng.choice("[]"), "control-char": rng.choice(NONPRINTING), "tilde": "~"}[kind]
+            vals = [x for x, _ in _all_tags(items) if x["role"] == "value" and x.get("node") and len(x["suffix"]) > 3
+                    and set(o.value_classes_of(o.by_path[x["node"].casefold()])) <= {"nameClass", "textClass"}
+                    and set(o.value_classes_of(o.by_path[x["node"].casefold()]))]
+            if kind == "control-char" and vals and rng.random() < 0.5:
+                # the same character inside a name or text value: the value classes allow letters beyond ASCII, not these
+                t = rng.choice(vals)
+                k = rng.randrange(2, len(t["suffix"]) - 1)
+                t["suffix"] = t["suffix"][:k] + ch + t["suffix"][k:]
+                sub = "in-value"
+            else:
+                k = rng.randrange(1, len(t["name"]) - 1)
+                t["raw"] = t["name"][:k] + ch + t["name"][k:]
             text = render(items, rng)
             code = "TILDES_UNSUPPORTED" if kind == "tilde" else "CHARACTER_INVALID"
     elif kind == "empty-group":
@@ -575,9 +602,12 @@ def mutate(gen, items, kind, rng):
         d = rng.choice(with_content)
         val = gen.def_value(d) if d["takes_value"] else None
         content = gen.expansion(d, val)
-        how = rng.choice(["add", "remove", "swap", "regroup", "regroup"])
+        how = rng.choice(["add", "remove", "swap", "regroup", "regroup"] + (["unplug", "unplug"] if val and getattr(gen, "allow_unplug", False) else []))
         plain_in = [t for t, _ in walk(content) if t["t"] == "tag" and t["role"] == "def-plain"]
-        if how == "regroup":
+        if how == "unplug":
+            # the content as the definition declares it: the value named on the Def-expand tag was never plugged in
+            content = gen.expansion(d, "#")
+        elif how == "regroup":
             # the same tags, grouped differently: a nested group dissolved into its parent, or two members wrapped
             inner = [k for k in content if k["t"] == "group"]
             if inner:
@@ -626,7 +656,7 @@ def mutate(gen, items, kind, rng):
     tree_level = text is None or kind in ("bracket-char", "control-char", "tilde")
     if text is None:
         text = render(items, rng)
-    return dict(text=text, code=code, kind=kind, items=items if tree_level else None)
+    return dict(text=text, code=code, kind=kind, items=items if tree_level else None, sub=sub)
 
 
 # =====================================================================================================
